@@ -403,3 +403,42 @@ func TestSelectModel(t *testing.T) {
 		t.Fatal("real select: want value 5")
 	}
 }
+
+func TestWaitGroupModel(t *testing.T) {
+	for seed := uint64(1); seed <= 60; seed++ {
+		var ch Chooser
+		switch seed % 3 {
+		case 0:
+			ch = NewRandomChooser(seed, 2)
+		case 1:
+			ch = NewPCT(seed, 2, 100)
+		default:
+			ch = &RoundRobin{Quantum: 1}
+		}
+		sum := 0
+		res := Run(Config{Budget: 100_000, Chooser: ch}, func() {
+			var wg sync.WaitGroup
+			var mu sync.Mutex
+			for k := 1; k <= 4; k++ {
+				k := k
+				WgAdd(&wg, 1, 1)
+				Go(2, func() {
+					defer WgDone(&wg, 3)
+					for i := 0; i < 3; i++ {
+						Yield(4)
+					}
+					Lock(&mu, 5)
+					sum += k
+					Unlock(&mu, 6)
+				})
+			}
+			WgWait(&wg, 7)
+			if sum != 10 {
+				t.Errorf("seed %d: Wait returned early: sum=%d", seed, sum)
+			}
+		})
+		if res.Deadlock || res.Budget || len(res.Leaks) > 0 {
+			t.Fatalf("seed %d: %+v", seed, res)
+		}
+	}
+}
